@@ -2,7 +2,7 @@
    keeps the k best of everything it has accounted for (DESIGN.md Appendix B4), the radius search is exact. *)
 From Coq Require Import ZArith List Bool Lia Arith PeanoNat Permutation Sorting.Sorted.
 Import ListNotations.
-Require Import MV.C11.Ext MV.C11.Gen MV.C11.Model MV.C11.ProofsGen MV.C11.ProofsBuild.
+Require Import MV.C11.Ext MV.C11.Heap MV.C11.Gen MV.C11.Model MV.C11.ProofsHeap MV.C11.ProofsGen MV.C11.ProofsBuild.
 Close Scope Z_scope.
 Open Scope nat_scope.
 
@@ -71,68 +71,30 @@ Section Query.
   Section KNN.
     Variable k : nat.
     Local Notation push := (push_c P q k).
+    Local Notation hp_ok := (heap_ok item_lt item_dummy).
 
-    Definition cle2 (a b : cand) : Prop := (fst a <= fst b)%Z.
-    Local Notation sorted := (StronglySorted cle2).
-    Definition c0 : cand := (0%Z, O).
+    (* squared distance recorded in a heap item (priority = - distance) and the worst one held (the heap's root) *)
+    Definition key (e : item) : Z := (- fst e)%Z.
+    Definition worst (f : list item) : Z := key (nth 0 f item_dummy).
+    Definition new_item (i : nat) : item := ((- d2 i)%Z, Z.of_nat i).
 
-    (* ---------------------------------------------------------------- the candidate list *)
-    Lemma insert_perm e f : Permutation (insert_c e f) (e :: f).
+    Lemma payload_new i : payload (new_item i) = i.
+    Proof. unfold payload, new_item. simpl. apply Nat2Z.id. Qed.
+
+    Lemma root_max f : hp_ok f -> forall y, In y f -> (key y <= worst f)%Z.
     Proof.
-      induction f as [|x t IH]; simpl; [reflexivity|].
-      destruct (Z.ltb _ _); [reflexivity|].
-      eapply Permutation_trans; [apply perm_skip; exact IH|]. apply perm_swap.
+      intros H y Hy. destruct (In_nth _ _ item_dummy Hy) as (i & Hi & <-).
+      pose proof (heap_ok_root item item_lt item_dummy item_lt_ok f H i Hi) as Hr.
+      apply item_lt_false in Hr. unfold worst, key. lia.
     Qed.
 
-    Lemma insert_length e f : length (insert_c e f) = S (length f).
-    Proof. apply (Permutation_length (insert_perm e f)). Qed.
-
-    Lemma insert_sorted e f : sorted f -> sorted (insert_c e f).
+    (* ---------------------------------------------------------------- push / evict on the heap *)
+    Lemma push_item_spec f i : hp_ok f ->
+      hp_ok (push_item P q f i) /\ Permutation (push_item P q f i) (new_item i :: f).
     Proof.
-      induction 1 as [|x t Hs IH Hf]; simpl.
-      - constructor; constructor.
-      - destruct (Z.ltb_spec (fst e) (fst x)) as [Hlt|Hge].
-        + constructor; [constructor; assumption|]. constructor; [unfold cle2; lia|].
-          eapply Forall_impl; [|exact Hf]. unfold cle2. intros; lia.
-        + constructor; [exact IH|].
-          eapply Permutation_Forall; [apply Permutation_sym; apply insert_perm|].
-          constructor; [unfold cle2; lia|exact Hf].
-    Qed.
-
-    Lemma insert_last e f : insert_c e f = f ++ [e] \/ (f <> [] /\ last (insert_c e f) c0 = last f c0).
-    Proof.
-      induction f as [|x t IH]; cbn [insert_c]; [left; reflexivity|].
-      destruct (Z.ltb _ _).
-      - right. split; [congruence|]. rewrite last_cons by congruence. reflexivity.
-      - destruct IH as [IH|[Hne IH]].
-        + left. rewrite IH. reflexivity.
-        + right. split; [congruence|].
-          rewrite !last_cons; [exact IH|exact Hne|].
-          intros En. pose proof (insert_length e t) as Hl. rewrite En in Hl. simpl in Hl. lia.
-    Qed.
-
-    Lemma sorted_removelast f : sorted f -> sorted (removelast f).
-    Proof.
-      intros H. destruct f as [|x t]; [exact H|].
-      rewrite (app_removelast_last c0 (l := x :: t)) in H by congruence.
-      apply SS_app in H. tauto.
-    Qed.
-
-    Lemma sorted_last f x : sorted f -> In x f -> cle2 x (last f c0).
-    Proof.
-      intros H Hx. destruct f as [|y t]; [destruct Hx|].
-      assert (E := app_removelast_last c0 (l := y :: t) ltac:(congruence)).
-      rewrite E in H, Hx. apply SS_app in H. destruct H as (_ & _ & Hc).
-      apply in_app_or in Hx. destruct Hx as [Hx|[Hx|[]]].
-      - apply Hc; simpl; auto.
-      - subst. unfold cle2. lia.
-    Qed.
-
-    Lemma removelast_length {A} (l : list A) : length (removelast l) = pred (length l).
-    Proof.
-      destruct l as [|x t]; [reflexivity|].
-      pose proof (app_removelast_last x (l := x :: t) ltac:(congruence)) as E.
-      apply (f_equal (@length A)) in E. rewrite app_length in E. simpl in *. lia.
+      intros H. unfold push_item. fold (d2 i). rewrite pq_push_eq. fold (new_item i). split.
+      - apply heappush_ok; [exact item_lt_ok|exact H].
+      - apply heappush_perm.
     Qed.
 
     Lemma evict_small n f : length f <= k -> evict n k f = f.
@@ -141,27 +103,36 @@ Section Query.
       destruct (knn_evict _ _) eqn:E; [|reflexivity]. apply knn_evict_true in E. lia.
     Qed.
 
-    Lemma push_cases f i : length f <= k ->
-      (length f < k /\ push f i = insert_c (d2 i, i) f) \/
-      (length f = k /\ push f i = removelast (insert_c (d2 i, i) f)).
+    Lemma push_cases f i : hp_ok f -> length f <= k ->
+      (length f < k /\ push f i = push_item P q f i) \/
+      (length f = k /\ exists z f', push f i = f' /\ Permutation (push_item P q f i) (z :: f') /\ hp_ok f' /\
+                                    forall y, In y (push_item P q f i) -> (key y <= key z)%Z).
     Proof.
-      intros H. unfold push_c. fold (d2 i). set (f1 := insert_c (d2 i, i) f).
-      assert (Hl : length f1 = S (length f)) by apply insert_length.
+      intros Hok H. unfold push_c. set (f1 := push_item P q f i).
+      destruct (push_item_spec f i Hok) as [Hok1 Hp1]. fold f1 in Hok1, Hp1.
+      assert (Hl : length f1 = S (length f)) by (apply (Permutation_length Hp1)).
       destruct (Nat.eq_dec (length f) k) as [E|E].
-      - right. split; [exact E|]. rewrite Hl. simpl.
-        destruct (knn_evict _ _) eqn:Ev.
-        + apply evict_small. rewrite removelast_length. lia.
-        + apply knn_evict_false in Ev. lia.
+      - right. split; [exact E|]. rewrite Hl. cbn [evict].
+        destruct (knn_evict _ _) eqn:Ev; [|apply knn_evict_false in Ev; lia].
+        rewrite pq_pop_eq.
+        destruct (heappop item item_lt item_dummy f1) as [[z f']|] eqn:Ep.
+        + pose proof (heappop_perm _ _ _ _ _ _ Ep) as Hpp.
+          exists z, f'. split; [|split; [exact Hpp|split]].
+          * apply evict_small. apply Permutation_length in Hpp. simpl in Hpp. lia.
+          * eapply heappop_ok; [exact item_lt_ok|exact Hok1|exact Ep].
+          * intros y Hy. pose proof (heappop_min _ _ _ item_lt_ok _ _ _ Hok1 Ep y Hy) as Hm.
+            apply item_lt_false in Hm. unfold key. lia.
+        + apply heappop_none in Ep. rewrite Ep in Hl. simpl in Hl. lia.
       - left. split; [lia|]. apply evict_small. lia.
     Qed.
 
     (* ---------------------------------------------------------------- the invariant: f = the k best of S *)
-    Definition dok (f : list cand) : Prop := forall e, In e f -> fst e = d2 (snd e).
+    Definition dok (f : list item) : Prop := forall e, In e f -> key e = d2 (payload e).
 
-    Definition Inv (f : list cand) (S : list nat) : Prop :=
-      sorted f /\ dok f /\ length f <= k /\
-      exists rest, Permutation S (map snd f ++ rest) /\ (rest <> [] -> length f = k) /\
-                   (forall j e, In j rest -> In e f -> (fst e <= d2 j)%Z).
+    Definition Inv (f : list item) (S : list nat) : Prop :=
+      hp_ok f /\ dok f /\ length f <= k /\
+      exists rest, Permutation S (map payload f ++ rest) /\ (rest <> [] -> length f = k) /\
+                   (forall j e, In j rest -> In e f -> (key e <= d2 j)%Z).
 
     Lemma Inv_perm f S S' : Permutation S S' -> Inv f S -> Inv f S'.
     Proof.
@@ -169,52 +140,51 @@ Section Query.
       exists rest. repeat split; auto. eapply Permutation_trans; [apply Permutation_sym; exact HP|exact H4].
     Qed.
 
+    Lemma dok_new i : key (new_item i) = d2 (payload (new_item i)).
+    Proof. rewrite payload_new. unfold key, new_item. simpl. lia. Qed.
+
     Lemma Inv_push f S i : Inv f S -> Inv (push f i) (S ++ [i]).
     Proof.
       intros (Hs & Hd & Hl & rest & Hp & Hr & Hb).
-      set (e := (d2 i, i)). pose proof (insert_perm e f) as Hip. pose proof (insert_sorted e f Hs) as His.
-      assert (Hd1 : dok (insert_c e f)).
-      { intros x Hx. apply (Permutation_in _ Hip) in Hx. destruct Hx as [Hx|Hx]; [subst; reflexivity|apply Hd; exact Hx]. }
-      destruct (push_cases f i Hl) as [[Hlt E]|[Heq E]]; rewrite E; fold e.
+      set (e := new_item i). destruct (push_item_spec f i Hs) as [Hok1 Hip].
+      set (f1 := push_item P q f i) in *. fold e in Hip.
+      assert (Hd1 : dok f1).
+      { intros x Hx. apply (Permutation_in _ Hip) in Hx. destruct Hx as [Hx|Hx]; [subst; apply dok_new|apply Hd; exact Hx]. }
+      assert (Hm1 : Permutation (map payload f1) (i :: map payload f)).
+      { apply (Permutation_map payload) in Hip. simpl in Hip. unfold e in Hip. rewrite payload_new in Hip. exact Hip. }
+      assert (Hl1 : length f1 = Datatypes.S (length f)) by (apply (Permutation_length Hip)).
+      destruct (push_cases f i Hs Hl) as [[Hlt E]|[Heq (z & f' & E & Hpp & Hok' & Hmax)]]; rewrite E; fold f1.
       - (* room left: nothing evicted *)
         assert (rest = []) by (destruct rest; [reflexivity|exfalso; assert (length f = k) by (apply Hr; congruence); lia]).
         subst rest. rewrite app_nil_r in Hp.
-        split; [exact His|]. split; [exact Hd1|]. split; [rewrite insert_length; lia|].
+        split; [exact Hok1|]. split; [exact Hd1|]. split; [lia|].
         exists []. rewrite app_nil_r. split; [|split; [congruence|intros j x []]].
-        eapply Permutation_trans; [apply Permutation_app_tail; exact Hp|].
-        eapply Permutation_trans; [apply Permutation_app_comm|]. simpl.
-        apply Permutation_sym. apply (Permutation_map snd) in Hip. exact Hip.
-      - (* full: the farthest of f + e is evicted *)
-        set (f1 := insert_c e f) in *. set (z := last f1 c0). set (a := removelast f1).
-        assert (Hne : f1 <> []).
-        { intros En. pose proof (insert_length e f) as Hl1. fold f1 in Hl1. rewrite En in Hl1. simpl in Hl1. lia. }
-        assert (Ef1 : f1 = a ++ [z]) by (apply app_removelast_last; exact Hne).
-        assert (Hza : forall x, In x a -> cle2 x z).
-        { intros x Hx. apply sorted_last; [exact His|]. rewrite Ef1. apply in_or_app; auto. }
-        assert (Hzin : In z f1) by (rewrite Ef1; apply in_or_app; simpl; auto).
-        split; [apply sorted_removelast; exact His|].
-        split; [intros x Hx; apply Hd1; rewrite Ef1; apply in_or_app; auto|].
-        split; [unfold a; rewrite removelast_length; unfold f1; rewrite insert_length; simpl; lia|].
-        exists (snd z :: rest). split; [|split].
-        + (* S ++ [i] ~ map snd a ++ snd z :: rest *)
-          eapply Permutation_trans; [apply Permutation_app_tail; exact Hp|].
-          assert (Hm : Permutation (map snd f1) (i :: map snd f)) by (apply (Permutation_map snd) in Hip; exact Hip).
-          rewrite Ef1, map_app in Hm. simpl in Hm.
-          eapply Permutation_trans; [apply Permutation_sym; apply Permutation_cons_append|].
-          change (snd z :: rest) with ([snd z] ++ rest). rewrite app_assoc.
-          eapply Permutation_trans; [|apply Permutation_app_tail; apply Permutation_sym; exact Hm]. reflexivity.
-        + intros _. unfold a. rewrite removelast_length. unfold f1. rewrite insert_length. simpl. exact Heq.
+        eapply Permutation_trans; [apply Permutation_sym; apply Permutation_cons_append|].
+        eapply Permutation_trans; [apply perm_skip; exact Hp|]. apply Permutation_sym. exact Hm1.
+      - (* full: a farthest of f + e is evicted *)
+        fold f1 in Hpp, Hmax.
+        assert (Hzin : In z f1) by (apply (Permutation_in _ (Permutation_sym Hpp)); simpl; auto).
+        assert (Hsub : forall x, In x f' -> In x f1) by (intros x Hx; apply (Permutation_in _ (Permutation_sym Hpp)); simpl; auto).
+        assert (Hl' : length f' = k) by (apply Permutation_length in Hpp; simpl in Hpp; lia).
+        split; [exact Hok'|]. split; [intros x Hx; apply Hd1; apply Hsub; exact Hx|]. split; [lia|].
+        exists (payload z :: rest). split; [|split].
+        + eapply Permutation_trans; [apply Permutation_sym; apply Permutation_cons_append|].
+          eapply Permutation_trans; [apply perm_skip; exact Hp|].
+          change (i :: map payload f ++ rest) with ((i :: map payload f) ++ rest).
+          eapply Permutation_trans; [apply Permutation_app_tail; apply Permutation_sym; exact Hm1|].
+          apply (Permutation_map payload) in Hpp. simpl in Hpp.
+          eapply Permutation_trans; [apply Permutation_app_tail; exact Hpp|]. simpl. apply Permutation_middle.
+        + intros _. exact Hl'.
         + intros j x Hj Hx. destruct Hj as [Hj|Hj].
-          * subst j. rewrite <- (Hd1 z Hzin). apply Hza. exact Hx.
-          * (* j was already left out: every old candidate is at most d2 j *)
-            apply (Permutation_in _ Hip) in Hzin. destruct Hzin as [Hz|Hz].
-            -- (* the new point itself is evicted: a is a permutation of f *)
-               assert (Hpa : Permutation a f).
+          * subst j. rewrite <- (Hd1 z Hzin). apply Hmax. apply Hsub. exact Hx.
+          * apply (Permutation_in _ Hip) in Hzin. destruct Hzin as [Hz|Hz].
+            -- (* the new point itself is evicted: f' is a permutation of f *)
+               assert (Hpa : Permutation f' f).
                { apply Permutation_cons_inv with (a := e). eapply Permutation_trans; [|exact Hip].
-                 rewrite Ef1. rewrite <- Hz. eapply Permutation_trans; [apply Permutation_cons_append|]. reflexivity. }
+                 rewrite Hz. apply Permutation_sym. exact Hpp. }
                apply (Hb j x Hj). eapply Permutation_in; [exact Hpa|exact Hx].
             -- (* an old candidate z is evicted; x <= z <= d2 j *)
-               specialize (Hza x Hx). specialize (Hb j z Hj Hz). unfold cle2 in Hza. lia.
+               pose proof (Hmax x (Hsub x Hx)) as H1. specialize (Hb j z Hj Hz). lia.
     Qed.
 
     Lemma Inv_fold lp : forall f S, Inv f S -> Inv (fold_left push lp f) (S ++ lp).
@@ -225,9 +195,9 @@ Section Query.
         apply IH. apply Inv_push. exact H.
     Qed.
 
-    (* points that are at least as far as the current k-th candidate can be skipped *)
+    (* points that are at least as far as every candidate held (k of them) can be skipped *)
     Lemma Inv_prune f S T : Inv f S ->
-      (forall j, In j T -> length f = k /\ (forall e, In e f -> (fst e <= d2 j)%Z)) -> Inv f (S ++ T).
+      (forall j, In j T -> length f = k /\ (forall e, In e f -> (key e <= d2 j)%Z)) -> Inv f (S ++ T).
     Proof.
       intros (Hs & Hd & Hl & rest & Hp & Hr & Hb) HT. repeat split; auto.
       exists (rest ++ T). split; [|split].
@@ -239,36 +209,46 @@ Section Query.
     Qed.
 
     (* ---------------------------------------------------------------- once full, stays full and the k-th distance never grows *)
-    Definition Full (f : list cand) : Prop := sorted f /\ length f = k /\ f <> [].
+    Definition Full (f : list item) : Prop := hp_ok f /\ length f = k /\ f <> [].
 
-    Lemma Full_push f i : Full f -> Full (push f i) /\ cle2 (last (push f i) c0) (last f c0).
+    Lemma Full_push f i : Full f -> Full (push f i) /\ (worst (push f i) <= worst f)%Z.
     Proof.
       intros (Hs & Hl & Hne).
-      destruct (push_cases f i ltac:(lia)) as [[Hlt _]|[_ E]]; [lia|]. rewrite E.
-      set (e := (d2 i, i)). fold e. pose proof (insert_sorted e f Hs) as His.
+      destruct (push_item_spec f i Hs) as [Hok1 Hip].
+      destruct (push_cases f i Hs ltac:(lia)) as [[Hlt _]|[_ (z & f' & E & Hpp & Hok' & Hmax)]]; [lia|]. rewrite E.
+      set (f1 := push_item P q f i) in *. set (e := new_item i) in *.
       assert (Hk : 1 <= k) by (destruct f; simpl in *; [congruence|lia]).
-      assert (Hla : length (removelast (insert_c e f)) = k) by (rewrite removelast_length, insert_length; simpl; lia).
-      assert (Hane : removelast (insert_c e f) <> []) by (intros En; rewrite En in Hla; simpl in Hla; lia).
-      split; [split; [apply sorted_removelast; exact His|split; assumption]|].
-      destruct (insert_last e f) as [El|[_ El]].
-      - rewrite El. rewrite removelast_last. unfold cle2. lia.
-      - rewrite <- El. apply sorted_last; [exact His|].
-        apply removelast_In. apply last_In. exact Hane.
+      assert (Hl' : length f' = k).
+      { apply Permutation_length in Hpp. apply Permutation_length in Hip. simpl in *. lia. }
+      assert (Hne' : f' <> []) by (intros En; rewrite En in Hl'; simpl in Hl'; lia).
+      split; [split; [exact Hok'|split; assumption]|].
+      assert (Hsub : forall x, In x f' -> In x f1) by (intros x Hx; apply (Permutation_in _ (Permutation_sym Hpp)); simpl; auto).
+      assert (Hr : In (nth 0 f' item_dummy) f') by (apply nth_In; lia).
+      unfold worst at 1. set (r := nth 0 f' item_dummy) in *.
+      assert (Hzin : In z f1) by (apply (Permutation_in _ (Permutation_sym Hpp)); simpl; auto).
+      apply (Permutation_in _ Hip) in Hzin. destruct Hzin as [Hz|Hz].
+      - assert (Hpa : Permutation f' f).
+        { apply Permutation_cons_inv with (a := e). eapply Permutation_trans; [|exact Hip].
+          rewrite Hz. apply Permutation_sym. exact Hpp. }
+        apply root_max; [exact Hs|]. eapply Permutation_in; [exact Hpa|exact Hr].
+      - pose proof (Hsub r Hr) as Hr1. apply (Permutation_in _ Hip) in Hr1. destruct Hr1 as [Hr1|Hr1].
+        + pose proof (Hmax r (Hsub r Hr)) as H1. pose proof (root_max f Hs z Hz) as H2. lia.
+        + apply root_max; assumption.
     Qed.
 
     Lemma Full_fold lp : forall f, Full f ->
-      Full (fold_left push lp f) /\ cle2 (last (fold_left push lp f) c0) (last f c0).
+      Full (fold_left push lp f) /\ (worst (fold_left push lp f) <= worst f)%Z.
     Proof.
       induction lp as [|i lp IH]; intros f H; simpl.
-      - split; [exact H|unfold cle2; lia].
+      - split; [exact H|lia].
       - destruct (Full_push f i H) as [H1 H2]. destruct (IH _ H1) as [H3 H4].
-        split; [exact H3|unfold cle2 in *; lia].
+        split; [exact H3|lia].
     Qed.
 
     (* ---------------------------------------------------------------- the search on the represented tree *)
     Definition order_lr (dl dr : ext) (l r : nat) : bool := eltb dl dr || (eeqb dl dr && Nat.leb l r).
 
-    Fixpoint visit (t : tree) (found : list cand) : list cand :=
+    Fixpoint visit (t : tree) (found : list item) : list item :=
       match t with
       | TL lp _ => fold_left push lp found
       | TN _ lid rid l r =>
@@ -306,29 +286,30 @@ Section Query.
             first [ fin IH (tr :: tl :: ts) | fin IH (tl :: tr :: ts) | fin IH (tl :: ts) | fin IH (tr :: ts) | fin IH ts ].
     Qed.
 
-    (* a subtree is skipped only when k candidates are held and none of its points beats the k-th *)
-    Lemma prune_ok t f j : twf t -> sorted f -> length f <= k ->
+    (* a subtree is skipped only when k candidates are held and none of its points beats the worst of them *)
+    Lemma prune_ok t f j : twf t -> hp_ok f -> length f <= k ->
       knn_visit (furthest k f) (boxdist2 (tbox t) q) = false -> In j (tpts t) ->
-      Full f /\ (fst (last f c0) <= d2 j)%Z.
+      Full f /\ (worst f <= d2 j)%Z.
     Proof.
       intros W Hs Hl Hv Hj. apply knn_visit_false in Hv.
       pose proof (ele_trans _ _ _ Hv (box_lower t j W Hj)) as H.
       unfold furthest in H. destruct (knn_full _ _ _) eqn:Ef.
-      - apply knn_full_true in Ef. destruct Ef as [Ek En]. apply ele_fin in H.
-        split; [|exact H]. split; [exact Hs|]. split; [lia|]. destruct f; simpl in En; congruence.
+      - apply knn_full_true in Ef. destruct Ef as [Ek En]. apply pq_empty_false in En.
+        rewrite (pq_front_cons f En) in H. apply ele_fin in H.
+        split; [|exact H]. split; [exact Hs|]. split; [lia|exact En].
       - apply ele_PosInf_l in H. discriminate.
     Qed.
 
-    Lemma Full_visit t : forall f, Full f -> Full (visit t f) /\ cle2 (last (visit t f) c0) (last f c0).
+    Lemma Full_visit t : forall f, Full f -> Full (visit t f) /\ (worst (visit t f) <= worst f)%Z.
     Proof.
       induction t as [lp bb|bb lid rid l IHl r IHr]; intros f H; cbn [visit].
       - apply Full_fold. exact H.
-      - assert (Hid : Full f /\ cle2 (last f c0) (last f c0)) by (split; [exact H|unfold cle2; lia]).
+      - assert (Hid : Full f /\ (worst f <= worst f)%Z) by (split; [exact H|lia]).
         destruct (order_lr _ _ _ _).
         + destruct (knn_visit (furthest k f) (boxdist2 (tbox r) q)); [destruct (IHr f H) as [H1 H2]|destruct Hid as [H1 H2]];
-            (destruct (knn_visit (furthest k f) (boxdist2 (tbox l) q)); [destruct (IHl _ H1) as [H3 H4]; split; [exact H3|unfold cle2 in *; lia]|split; assumption]).
+            (destruct (knn_visit (furthest k f) (boxdist2 (tbox l) q)); [destruct (IHl _ H1) as [H3 H4]; split; [exact H3|lia]|split; assumption]).
         + destruct (knn_visit (furthest k f) (boxdist2 (tbox l) q)); [destruct (IHl f H) as [H1 H2]|destruct Hid as [H1 H2]];
-            (destruct (knn_visit (furthest k f) (boxdist2 (tbox r) q)); [destruct (IHr _ H1) as [H3 H4]; split; [exact H3|unfold cle2 in *; lia]|split; assumption]).
+            (destruct (knn_visit (furthest k f) (boxdist2 (tbox r) q)); [destruct (IHr _ H1) as [H3 H4]; split; [exact H3|lia]|split; assumption]).
     Qed.
 
     (* one internal node: first child a, then child b, both decisions taken with the bound computed before *)
@@ -347,15 +328,15 @@ Section Query.
       { destruct (knn_visit _ (boxdist2 (tbox a) q)) eqn:Ea; [apply IHa; exact HI|].
         apply Inv_prune; [exact HI|]. intros j Hj.
         destruct (prune_ok a f j Wa Hs Hl Ea Hj) as [(Hs' & Hk & Hne) Hd]. split; [exact Hk|].
-        intros e He. pose proof (sorted_last f e Hs He) as Hc. unfold cle2 in Hc. lia. }
+        intros e He. pose proof (root_max f Hs e He) as Hc. lia. }
       destruct (knn_visit _ (boxdist2 (tbox b) q)) eqn:Eb; [apply IHb; exact H1|].
       apply Inv_prune; [exact H1|]. intros j Hj.
       destruct (prune_ok b f j Wb Hs Hl Eb Hj) as [HF Hd].
       assert (HF1 : Full (if knn_visit (furthest k f) (boxdist2 (tbox a) q) then visit a f else f) /\
-                    cle2 (last (if knn_visit (furthest k f) (boxdist2 (tbox a) q) then visit a f else f) c0) (last f c0)).
-      { destruct (knn_visit _ (boxdist2 (tbox a) q)); [apply Full_visit; exact HF|split; [exact HF|unfold cle2; lia]]. }
+                    (worst (if knn_visit (furthest k f) (boxdist2 (tbox a) q) then visit a f else f) <= worst f)%Z).
+      { destruct (knn_visit _ (boxdist2 (tbox a) q)); [apply Full_visit; exact HF|split; [exact HF|lia]]. }
       destruct HF1 as [(Hs1 & Hk1 & Hne1) Hc1]. split; [exact Hk1|].
-      intros e He. pose proof (sorted_last _ e Hs1 He) as Hc. unfold cle2 in *. lia.
+      intros e He. pose proof (root_max _ Hs1 e He) as Hc. lia.
     Qed.
 
     Lemma Inv_visit t : twf t -> forall f S, Inv f S -> Inv (visit t f) (S ++ tpts t).
@@ -371,8 +352,27 @@ Section Query.
 
     Lemma Inv_nil : Inv [] [].
     Proof.
-      split; [constructor|]. split; [intros e []|]. split; [simpl; lia|].
+      split; [apply heap_ok_nil|]. split; [intros e []|]. split; [simpl; lia|].
       exists []. split; [constructor|]. split; [congruence|intros j e []].
+    Qed.
+
+    (* ---------------------------------------------------------------- emptying the heap: items by increasing priority *)
+    Lemma popall_spec n : forall f, hp_ok f -> length f = n ->
+      Permutation (popall n f) f /\ StronglySorted (fun a b : item => (fst a <= fst b)%Z) (popall n f).
+    Proof.
+      induction n as [|n IH]; intros f Hok Hl; cbn [popall].
+      - destruct f; [split; constructor|discriminate].
+      - rewrite pq_pop_eq. destruct (heappop item item_lt item_dummy f) as [[z f']|] eqn:Ep.
+        + pose proof (heappop_perm _ _ _ _ _ _ Ep) as Hpp.
+          assert (Hok' : hp_ok f') by (eapply heappop_ok; [exact item_lt_ok|exact Hok|exact Ep]).
+          assert (Hl' : length f' = n) by (apply Permutation_length in Hpp; simpl in Hpp; lia).
+          destruct (IH f' Hok' Hl') as [Hp Hs]. split.
+          * eapply Permutation_trans; [apply perm_skip; exact Hp|]. apply Permutation_sym. exact Hpp.
+          * constructor; [exact Hs|]. apply Forall_forall. intros y Hy.
+            apply (Permutation_in _ Hp) in Hy.
+            assert (Hyf : In y f) by (apply (Permutation_in _ (Permutation_sym Hpp)); simpl; auto).
+            pose proof (heappop_min _ _ _ item_lt_ok _ _ _ Hok Ep y Hyf) as Hm. apply item_lt_false in Hm. exact Hm.
+        + apply heappop_none in Ep. subst f. discriminate.
     Qed.
   End KNN.
 
